@@ -571,6 +571,30 @@ def logical_not(a):
     return ~a
 
 
+def bins(*, data, dim, begin=None, end=None, validate_indices=True):
+    """scipp.bins: begin defaults to one event per bin, end defaults to the next begin (the buffer length for the last bin)."""
+    from .bins import make_binned_layout, _data_of
+
+    n = len(_data_of(data))
+    if begin is None:
+        if end is not None:
+            raise ValueError('`end` given but not `begin`')
+        raise C.Unsupported('scipp.bins without begin')
+    b = [int(R.lift(x).const_value()) for x in begin._a.reshape(-1)]
+    if end is None:
+        flat_sorted = b == sorted(b)
+        if not flat_sorted:
+            raise C.Unsupported('scipp.bins with unsorted begin and no end')
+        e = [*b[1:], n]
+    else:
+        e = [int(R.lift(x).const_value()) for x in end._a.reshape(-1)]
+    if validate_indices:
+        for bi, ei in zip(b, e, strict=True):
+            if not (0 <= bi <= ei <= n):
+                raise IndexError('Bin indices out of range')
+    return make_binned_layout(data, b, e, begin.dims, begin.shape, dim=dim)
+
+
 # ------------------------------------------------------------------ containers
 
 
@@ -875,7 +899,7 @@ def build_module():
               'sqrt reciprocal abs sin cos tan asin acos atan exp log round floor ceil isnan isfinite atan2 pow norm dot '
               'cross where nan_to_num min max sum mean all any cumsum values variances stddevs concat identical allclose '
               'issorted sort midpoints isclose transpose squeeze flatten fold broadcast add subtract multiply divide negative '
-              'less greater less_equal greater_equal equal not_equal logical_and logical_or logical_not to_unit '
+              'less greater less_equal greater_equal equal not_equal logical_and logical_or logical_not to_unit bins '
               'DataArray DataGroup Dataset Coords Variable DType Unit UnitError DTypeError DimensionError VariancesError '
               'VariableError CoordError BinEdgeError').split():
         setattr(m, k, g[k])
